@@ -320,7 +320,7 @@ class Log(Transform):
     def _jacobian(self, x):
         nu = self.params.values[0]
         bf = self.basefactor
-        return np.where(x + nu > self.mininu, 1. / (x + nu) / bf,
+        return np.where(x + nu > 0., 1. / (x + nu) / bf,
                         np.nan)
 
     def params_sample(self, nsamples=500, minval=-6., maxval=0.):
